@@ -170,6 +170,7 @@ impl<'tcx> M<'tcx> {
         Ok(match t.kind() {
             ty::Adt(a, _) if is_transparent_adt(tcx, a.did()) => self.mk_input(inner_of_transparent(tcx, t), name)?,
             ty::Adt(_, _) if is_tok(tcx, t) => V::T(self.terms.mk(Term::In(name.to_string(), "Tok".into()))),
+            ty::Adt(a, _) if tcx.item_name(a.did()).as_str() == "Formatter" => V::T(self.terms.mk(Term::In(name.to_string(), "Formatter".into()))),
             ty::Adt(a, args) if a.is_struct() => {
                 let mut v = vec![];
                 for f in a.non_enum_variant().fields.iter() {
